@@ -95,6 +95,70 @@ def _flat(parts):
     return [x for p in parts for x in p]
 
 
+def _expected_counts(kind: str, lines, wbc: str, ic: bool):
+    """the statement, token by token, for the tokeniser the analyser is built on: the four counters and the number
+    of non-empty lines of a well-formed corpus (JSON form: str / None items)"""
+    e = {'all': Counter(), 'start': Counter(), 'mid': Counter(), 'end': Counter()}
+    n = 0
+    for t in lines:
+        if t is None or t == '':
+            continue
+        n += 1
+        toks = _tokens(kind, t.lower() if ic else t, wbc)
+        e['all'].update(toks)
+        if len(toks) >= 1:
+            e['start'].update([toks[0]])
+        if len(toks) >= 2 or (len(toks) == 1 and kind == 'word'):
+            e['end'].update([toks[-1]])
+        if len(toks) >= 3:
+            e['mid'].update(toks[1:-1])
+    return e, n
+
+
+def _snap_lines(objs) -> List[Any]:
+    """deep snapshot of the objects handed to an analyser (they must not be changed by being analysed)"""
+    out = []
+    for o in objs:
+        if o is None or isinstance(o, (str, int)):
+            out.append(o)
+        elif isinstance(o, dict):
+            out.append({'dict': sorted((str(k), repr(v)) for k, v in o.items())})
+        else:
+            out.append({'line': [o.id, o.text, repr(o.coords.points if o.coords else None), sorted(o.metadata or {})]})
+    return out
+
+
+def _feed(a, kind: str, lines):
+    """the analysing method behind the constructors (also reached through make_line_analyser)"""
+    (a.analyse_line_words if kind == 'word' else a.analyse_line_chars)(lines)
+    return a
+
+
+def _full_items(c) -> List[List[Any]]:
+    """a Counter with every entry it holds (zero / negative ones included): to see that a call left it alone"""
+    return sorted([[k, (int(v) if float(v).is_integer() else float(v))] for k, v in c.items()])
+
+
+def _keyness_view(k) -> Dict[str, Dict[str, float]]:
+    return {p: {tok: float(s) for tok, s in k[p].items()} for p in ('more', 'less')}
+
+
+def _session_plan(inp):
+    """a `session` case: per analyser the counters the statement demands, per step what is asked of the model
+    (None: the step has no answer to compare — an empty counter lies outside "pairs of non-empty counters")"""
+    exp = [_expected_counts(a['kind'], a['lines'], a['wbc'], a['ic'])[0] for a in inp['analysers']]
+    plan = []
+    for op in inp['ops']:
+        if op[0] == 'keyness':
+            t, r = exp[op[1]][op[3]], exp[op[2]][op[3]]
+            plan.append(('keyness', _counter_pairs(t), _counter_pairs(r)) if t and r else None)
+        elif op[0] == 'complement':
+            plan.append(('complement', op[1], op[2]) if exp[op[1]]['all'] else None)
+        else:
+            plan.append(None)
+    return exp, plan
+
+
 # ---------------------------------------------------------------------------------------
 # documents
 # ---------------------------------------------------------------------------------------
@@ -213,13 +277,22 @@ def _in_statement(inp) -> bool:
     return ml > 0 and all(isinstance(b, int) and b > 0 and ml % b == 0 for b in _bin_sizes())
 
 
-def _doc_table(docs, inp) -> Dict[str, List[Any]]:
-    import pagexml.analysis.stats as st
-    t = st.get_doc_stats(docs, **_doc_kwargs(inp))
+def _canon_table(t) -> Dict[str, List[Any]]:
     out = {}
     for k, v in t.items():
         out[k] = [(x if (x is None or isinstance(x, str)) else int(x)) for x in v]
     return out
+
+
+def _doc_table(docs, inp) -> Dict[str, List[Any]]:
+    import pagexml.analysis.stats as st
+    return _canon_table(st.get_doc_stats(docs, **_doc_kwargs(inp)))
+
+
+def _snap_doc(d) -> List[Any]:
+    """what get_doc_stats reads of a document: id, size, its lines (id, text, width) in order"""
+    return [d.id, (d.coords.width, d.coords.height) if d.coords else None,
+            [[l.id, l.text, l.coords.w if l.coords else None] for l in d.get_lines()]]
 
 
 # ---------------------------------------------------------------------------------------
@@ -521,6 +594,39 @@ class C20(Check):
             if rng.random() < 0.1:
                 inp['vocab'] = rng.sample(toks + ['zz'], rng.randint(1, 4))
             out.append(Case('keyness', inp, ['random'] + (['big'] if big else [])))
+        # -- counters of clearly different totals (a small corpus against a large one, both ways round): the order of
+        #    the raw counts and the order of the relative frequencies disagree for many tokens
+        for _ in range(200 if quick else 1500):
+            ks = rng.sample(toks, rng.randint(2, len(toks)))
+            small_c = [[k, rng.randint(1, 5)] for k in rng.sample(ks, rng.randint(1, len(ks)))]
+            factor = rng.choice([7, 20, 60, 400])
+            large_c = [[k, rng.randint(1, 9) * factor] for k in rng.sample(ks, rng.randint(1, len(ks)))]
+            inp = {'target': small_c, 'ref': large_c} if rng.random() < 0.5 else {'target': large_c, 'ref': small_c}
+            out.append(Case('keyness', inp, ['random', 'unequal-totals']))
+        # -- several analysers in one process (different corpora, both kinds, both entry points); each one is read
+        #    right after it was built and again after the others were built and used
+        out.append(Case('session', {'analysers': [
+            {'kind': 'word', 'ic': False, 'wbc': '-', 'form': 'str', 'route': 'ctor', 'lines': ['a b c', 'd', '', None, 'e f']},
+            {'kind': 'char', 'ic': False, 'wbc': '-', 'form': 'str', 'route': 'ctor', 'lines': ['ab', 'c']},
+            {'kind': 'word', 'ic': True, 'wbc': '-', 'form': 'dict', 'route': 'make', 'lines': ['A a']}],
+            'ops': [['keyness', 0, 2, 'all'], ['complement', 0, 'start'], ['empty', 'word'], ['get_stats', 1]]}, ['corpus']))
+        for _ in range(150 if quick else 1500):
+            n = rng.choice([2, 2, 3, 4])
+            ans = [dict(_rand_cfg(rng), route=rng.choice(['ctor', 'make']),
+                        lines=_rand_corpus(rng, rng.choice([0, 1, 2, 3, 5, 8]))) for _ in range(n)]
+            ops = []
+            for _ in range(rng.randint(0, 4)):
+                r = rng.random()
+                if r < 0.4:
+                    i, j = rng.randrange(n), rng.randrange(n)
+                    ops.append(['keyness', i, j, rng.choice(['all', 'all', 'start', 'mid', 'end'])])
+                elif r < 0.6:
+                    ops.append(['complement', rng.randrange(n), rng.choice(['start', 'mid', 'end'])])
+                elif r < 0.8:
+                    ops.append(['empty', rng.choice(['word', 'char'])])
+                else:
+                    ops.append(['get_stats', rng.randrange(n)])
+            out.append(Case('session', {'analysers': ans, 'ops': ops}, ['random', 'several-analysers']))
         for _ in range(150 if quick else 1000):
             cfg = _rand_cfg(rng)
             out.append(Case('complement', dict(cfg, lines=_rand_corpus(rng, rng.randint(1, 8)),
@@ -624,41 +730,130 @@ class C20(Check):
         if case.kind == 'analyse':
             def f():
                 lines = [_py_line(x, inp['form'], i) for i, x in enumerate(inp['lines'])]
-                return _dump_analyser(_make(inp['kind'], lines, inp['wbc'], inp['ic']))
+                snap = _snap_lines(lines)
+                a = _make(inp['kind'], lines, inp['wbc'], inp['ic'])
+                d = _dump_analyser(a)
+                # history (the model is pure: the same answer holds for all of these): the SAME objects analysed a
+                # second time through the other entry point (make_line_analyser + analyse_line_*), an analyser of the
+                # other kind built on them, then the first analyser read again; the objects must not have changed
+                b = _feed(ts.make_line_analyser(inp['kind'], inp['wbc'], inp['ic']), inp['kind'], lines)
+                okind = 'char' if inp['kind'] == 'word' else 'word'
+                c = _make(okind, lines, inp['wbc'], inp['ic'])
+                hist = {'made': _dump_analyser(b), 'other': _dump_analyser(c)}
+                a.get_stats()
+                hist['again'] = _dump_analyser(a)
+                hist['made_again'] = _dump_analyser(b)
+                hist['inputs_unchanged'] = _snap_lines(lines) == snap
+                d['hist'] = hist
+                return d
             return call(f)
         if case.kind == 'split':
             def f():
                 objs = [[_py_line(x, inp['form'], i) for i, x in enumerate(p)] for p in inp['parts']]
+                snap = _snap_lines(_flat(objs))
                 ans = [_make(inp['kind'], p, inp['wbc'], inp['ic']) for p in objs]
                 whole = _make(inp['kind'], _flat(objs), inp['wbc'], inp['ic'])
+                # several analysers live in this process from here on: every one of them is read AFTER the others
+                # were built, and again after merging / adding / feeding (each must still report its own corpus)
+                okind = 'char' if inp['kind'] == 'word' else 'word'
+                other = _make(okind, objs[-1], inp['wbc'], inp['ic'])
                 out = {'parts': [_dump_analyser(a) for a in ans], 'whole': _dump_analyser(whole),
-                       'merge': _dump_analyser(ts.merge_analysers(ans))}
+                       'other': _dump_analyser(other)}
+                merged = ts.merge_analysers(ans)
+                out['merge'] = _dump_analyser(merged)
+                added = None
                 if len(ans) >= 2:
-                    out['add'] = _dump_analyser(ans[0] + ans[1])
+                    added = ans[0] + ans[1]
+                    out['add'] = _dump_analyser(added)
                     out['whole2'] = _dump_analyser(_make(inp['kind'], objs[0] + objs[1], inp['wbc'], inp['ic']))
                     # adding / merging must not change its operands: use them again afterwards
                     out['add_again'] = _dump_analyser(ans[0] + ans[1])
+                    # an operand on both sides, and a result used as an operand
+                    out['add_self'] = _dump_analyser(ans[0] + ans[0])
+                    out['add_chain'] = _dump_analyser(added + ans[-1]) if len(ans) >= 3 else None
                 out['merge_again'] = _dump_analyser(ts.merge_analysers(ans))
+                # ONE analyser (made by make_line_analyser) fed the parts one after the other
+                fed = ts.make_line_analyser(inp['kind'], inp['wbc'], inp['ic'])
+                for p in objs:
+                    _feed(fed, inp['kind'], p)
+                out['fed'] = _dump_analyser(fed)
                 out['parts_after'] = [_dump_analyser(a) for a in ans]
+                out['whole_after'] = _dump_analyser(whole)
+                out['other_after'] = _dump_analyser(other)
+                out['merge_after'] = _dump_analyser(merged)
+                out['add_after'] = _dump_analyser(added) if added is not None else None
+                out['inputs_unchanged'] = _snap_lines(_flat(objs)) == snap
                 return out
+            return call(f)
+        if case.kind == 'session':
+            def f():
+                objs = [[_py_line(x, a['form'], i) for i, x in enumerate(a['lines'])] for a in inp['analysers']]
+                ans, first = [], []
+                for a, o in zip(inp['analysers'], objs):
+                    if a.get('route') == 'make':
+                        an = _feed(ts.make_line_analyser(a['kind'], a['wbc'], a['ic']), a['kind'], o)
+                    else:
+                        an = _make(a['kind'], o, a['wbc'], a['ic'])
+                    ans.append(an)
+                    first.append(_dump_analyser(an))
+                steps = []
+                for op in inp['ops']:
+                    if op[0] == 'keyness':
+                        _, i, j, cnt = op
+                        t, r = ans[i].freq[cnt], ans[j].freq[cnt]
+                        if sum(t.values()) > 0 and sum(r.values()) > 0:
+                            k1 = _keyness_view(ts.compute_keyness(t, r))
+                            k2 = _keyness_view(ts.compute_keyness(r, t))
+                            steps.append({'fwd': k1, 'swapped': k2, 'fwd_again': _keyness_view(ts.compute_keyness(t, r))})
+                        else:
+                            steps.append(None)
+                    elif op[0] == 'complement':
+                        _, i, cnt = op
+                        steps.append({'fwd': _keyness_view(ts.compute_complement_keyness(ans[i], cnt))}
+                                     if sum(ans[i].freq['all'].values()) > 0 else None)
+                    elif op[0] == 'get_stats':
+                        ans[op[1]].get_stats()
+                        steps.append(None)
+                    elif op[0] == 'empty':
+                        # an analyser that has seen no line at all, made while the others exist
+                        e = ts.make_line_analyser(op[1], '-', False)
+                        steps.append({'empty': _dump_analyser(e)})
+                    else:
+                        raise ValueError(op)
+                return {'first': first, 'steps': steps, 'later': [_dump_analyser(a) for a in ans]}
             return call(f)
         if case.kind == 'keyness':
             def f():
                 t = Counter(dict((k, v) for k, v in inp['target']))
                 r = Counter(dict((k, v) for k, v in inp['ref']))
+                before = [_full_items(t), _full_items(r)]
                 k1 = ts.compute_keyness(t, r, vocab=inp.get('vocab'))
                 k2 = ts.compute_keyness(r, t, vocab=inp.get('vocab'))
-                return {'fwd': {p: {tok: float(s) for tok, s in k1[p].items()} for p in ('more', 'less')},
-                        'swapped': {p: {tok: float(s) for tok, s in k2[p].items()} for p in ('more', 'less')},
-                        'vocab': sorted(ts.get_keyness_vocab(t, r))}
+                v1 = _keyness_view(k1)
+                # the counters are used again afterwards: the same question must get the same answer, the earlier
+                # answer and the two counters must not have been touched (a vocabulary token missing from a counter
+                # must not be added to it)
+                k3 = ts.compute_keyness(t, r, vocab=inp.get('vocab'))
+                return {'fwd': v1, 'swapped': _keyness_view(k2),
+                        'vocab': sorted(ts.get_keyness_vocab(t, r)),
+                        'fwd_again': _keyness_view(k3), 'fwd_reread': _keyness_view(k1),
+                        'counters_unchanged': [_full_items(t), _full_items(r)] == before}
             return call(f)
         if case.kind == 'complement':
             def f():
                 lines = [_py_line(x, inp['form'], i) for i, x in enumerate(inp['lines'])]
                 a = _make(inp['kind'], lines, inp['wbc'], inp['ic'])
+                before = _dump_analyser(a)
+                full = {k: _full_items(c) for k, c in a.freq.items()}
                 k1 = ts.compute_complement_keyness(a, inp['counter'])
-                return {'fwd': {p: {tok: float(s) for tok, s in k1[p].items()} for p in ('more', 'less')},
-                        'analyser': _dump_analyser(a)}
+                v1 = _keyness_view(k1)
+                # every counter in turn, then the first one again, on the same analyser
+                for cnt in ('all', 'start', 'mid', 'end'):
+                    ts.compute_complement_keyness(a, cnt)
+                k2 = ts.compute_complement_keyness(a, inp['counter'])
+                return {'fwd': v1, 'analyser': _dump_analyser(a), 'fwd_again': _keyness_view(k2),
+                        'analyser_unchanged': before == _dump_analyser(a)
+                        and full == {k: _full_items(c) for k, c in a.freq.items()}}
             return call(f)
         if case.kind == 'wordcat':
             def f():
@@ -667,26 +862,61 @@ class C20(Check):
                     kw['max_word_length'] = inp['max_len']
                 if 'size' in inp:
                     kw['word_length_bin_size'] = inp['size']
-                s = ts.get_word_cat_stats(inp['words'], stop_words=inp['stop'], **kw)
-                return {k: (None if v is None else int(v)) for k, v in s.items()}
+                words, stop = list(inp['words']), (list(inp['stop']) if inp['stop'] is not None else None)
+                s = ts.get_word_cat_stats(words, stop_words=stop, **kw)
+                view = {k: (None if v is None else int(v)) for k, v in s.items()}
+                # the same lists used a second time (after a call with other words in between)
+                ts.get_word_cat_stats(['Other', 'words', '12', 'x' * 50], stop_words=['words'], **kw)
+                s2 = ts.get_word_cat_stats(words, stop_words=stop, **kw)
+                view['hist'] = {'again': {k: (None if v is None else int(v)) for k, v in s2.items()},
+                                'reread': {k: (None if v is None else int(v)) for k, v in s.items()},
+                                'inputs_unchanged': words == inp['words'] and stop == inp['stop']}
+                return view
             return call(f)
         if case.kind == 'linewidth':
             def f():
                 import pagexml.analysis.layout_stats as ls
                 pdm = _pdm()
                 lines = [pdm.PageXMLTextLine(coords=_box(0, 0, w, 10), text='t') for w in inp['widths']]
-                return {'stats': [[k, int(v)] for k, v in ls.get_line_width_stats(lines, inp['bps']).items()],
-                        'ranges': list(ls.get_boundary_width_ranges(inp['bps'])),
-                        'cats': [ls.categorise_line_width(l, inp['bps']) for l in lines]}
+                bps = list(inp['bps'])
+                st = ls.get_line_width_stats(lines, bps)
+                out = {'stats': [[k, int(v)] for k, v in st.items()],
+                       'ranges': list(ls.get_boundary_width_ranges(bps)),
+                       'cats': [ls.categorise_line_width(l, bps) for l in lines]}
+                # the same lines and boundary points used again (after the per-line calls above)
+                st2 = ls.get_line_width_stats(lines, bps)
+                out['hist'] = {'again': [[k, int(v)] for k, v in st2.items()],
+                               'reread': [[k, int(v)] for k, v in st.items()],
+                               'ranges_again': list(ls.get_boundary_width_ranges(bps)),
+                               'inputs_unchanged': bps == inp['bps'] and [l.coords.w for l in lines] == inp['widths']}
+                return out
             return call(f)
         if case.kind == 'docstats':
             def f():
+                import pagexml.analysis.stats as st
                 docs = [_build_doc(d) for d in inp['docs']]
                 own = [{k: int(v) for k, v in d.stats.items()} for d in docs]
-                return {'table': _doc_table(docs, inp), 'single': [_doc_table([d], inp) for d in docs],
-                        'one_arg': _doc_table(docs[0], inp) if len(docs) == 1 else None,
-                        'own_stats': own,
-                        'n_text_lines': [len([l for l in d.get_lines() if l.text is not None]) for d in docs]}
+                snap = [_snap_doc(d) for d in docs]
+                kw = _doc_kwargs(inp)
+                raw = st.get_doc_stats(docs, **kw)
+                out = {'table': _canon_table(raw), 'single': [_doc_table([d], inp) for d in docs],
+                       'one_arg': _doc_table(docs[0], inp) if len(docs) == 1 else None,
+                       'own_stats': own,
+                       'n_text_lines': [len([l for l in d.get_lines() if l.text is not None]) for d in docs]}
+                # history: a call with other options in between, the same call a second time, ONE list object that
+                # grows document by document (a table per length), and the earlier answers read again at the end
+                st.get_doc_stats(docs, line_width_boundary_points=[7, 1234], stop_words=['x'])
+                out['table_again'] = _doc_table(docs, inp)
+                grow, raws = [], []
+                for d in docs:
+                    grow.append(d)
+                    raws.append(st.get_doc_stats(grow, **kw))
+                # (all of them looked at only now, after the later calls were made)
+                out['growing'] = [_canon_table(t) for t in raws]
+                out['table_reread'] = _canon_table(raw)
+                out['docs_unchanged'] = (snap == [_snap_doc(d) for d in docs]
+                                         and own == [{k: int(v) for k, v in d.stats.items()} for d in docs])
+                return out
             return call(f)
         raise ValueError(case.kind)
 
@@ -696,13 +926,33 @@ class C20(Check):
 
         def mlines(ls):
             return [_model_line(inp['kind'], x, inp['wbc']) for x in ls]
+        def other(ls):
+            okind = 'char' if inp['kind'] == 'word' else 'word'
+            return {'p': 'C20', 'op': 'analyse', 'args': {'kind': okind, 'ic': inp['ic'],
+                                                          'lines': [_model_line(okind, x, inp['wbc']) for x in ls]}}
         if case.kind == 'analyse':
-            return [{'p': 'C20', 'op': 'analyse', 'args': {'kind': inp['kind'], 'ic': inp['ic'], 'lines': mlines(inp['lines'])}}]
+            return [{'p': 'C20', 'op': 'analyse', 'args': {'kind': inp['kind'], 'ic': inp['ic'], 'lines': mlines(inp['lines'])}},
+                    other(inp['lines'])]
         if case.kind == 'split':
             return [{'p': 'C20', 'op': 'split', 'args': {'kind': inp['kind'], 'ic': inp['ic'],
                                                           'parts': [mlines(p) for p in inp['parts']]}},
                     {'p': 'C20', 'op': 'analyse', 'args': {'kind': inp['kind'], 'ic': inp['ic'],
-                                                            'lines': mlines(_flat(inp['parts']))}}]
+                                                            'lines': mlines(_flat(inp['parts']))}},
+                    other(inp['parts'][-1])]
+        if case.kind == 'session':
+            reqs = [{'p': 'C20', 'op': 'analyse', 'args': {'kind': a['kind'], 'ic': a['ic'],
+                                                            'lines': [_model_line(a['kind'], x, a['wbc']) for x in a['lines']]}}
+                    for a in inp['analysers']]
+            for pl in _session_plan(inp)[1]:
+                if pl and pl[0] == 'keyness':
+                    reqs.append({'p': 'C20', 'op': 'keyness', 'args': {'target': pl[1], 'ref': pl[2], 'vocab': None}})
+                    reqs.append({'p': 'C20', 'op': 'keyness', 'args': {'target': pl[2], 'ref': pl[1], 'vocab': None}})
+                elif pl and pl[0] == 'complement':
+                    a = inp['analysers'][pl[1]]
+                    reqs.append({'p': 'C20', 'op': 'complement', 'args': {
+                        'kind': a['kind'], 'ic': a['ic'], 'lines': [_model_line(a['kind'], x, a['wbc']) for x in a['lines']],
+                        'counter': pl[2]}})
+            return reqs
         if case.kind == 'keyness':
             return [{'p': 'C20', 'op': 'keyness', 'args': {'target': inp['target'], 'ref': inp['ref'],
                                                             'vocab': inp.get('vocab')}},
@@ -769,7 +1019,60 @@ class C20(Check):
     def compare(self, case: Case, impl_out, model_out):
         inp = case.input
         if case.kind == 'analyse':
-            return self._cmp_res(impl_out, model_out[0])
+            d = self._cmp_res(impl_out, model_out[0])
+            if d or 'err' in impl_out or 'hist' not in impl_out['ok']:
+                return d
+            # the model is pure: the same answer for every later look at the analyser and for the second analyser
+            h = impl_out['ok']['hist']
+            for k in ('made', 'again', 'made_again'):
+                d = self._cmp_res({'ok': h[k]}, model_out[0])
+                if d:
+                    return f'{k}: {d}'
+            d = self._cmp_res({'ok': h['other']}, model_out[1])
+            return f'other kind on the same corpus: {d}' if d else None
+        if case.kind == 'session':
+            n = len(inp['analysers'])
+            if 'err' in impl_out:
+                return None if any('err' in m for m in model_out[:n]) else f'impl={impl_out}'
+            io = impl_out['ok']
+            for look in ('first', 'later'):
+                for i in range(n):
+                    d = self._cmp_res({'ok': io[look][i]}, model_out[i])
+                    if d:
+                        return f'analyser {i}, {look} look: {d}'
+            exp, plan = _session_plan(inp)
+            at = n
+            for op, pl, st in zip(inp['ops'], plan, io['steps']):
+                if pl is None:
+                    if st is not None and op[0] in ('keyness', 'complement'):
+                        return f'step {op}: the analysers hold tokens where the corpus has none'
+                    continue
+                if st is None:
+                    return f'step {op}: the analysers hold no tokens, the corpus has some'
+                if pl[0] == 'keyness':
+                    t, r = dict(pl[1]), dict(pl[2])
+                    tt, rt = sum(t.values()), sum(r.values())
+                    for side, m, (x, xt, y, yt) in (('fwd', model_out[at]['ok'], (t, tt, r, rt)),
+                                                    ('swapped', model_out[at + 1]['ok'], (r, rt, t, tt)),
+                                                    ('fwd_again', model_out[at]['ok'], (t, tt, r, rt))):
+                        d = _keyness_cmp(f'step {op} {side}', st[side], m,
+                                         lambda tok, x=x, xt=xt, y=y, yt=yt: x.get(tok, 0) * yt == y.get(tok, 0) * xt, score=True)
+                        if d:
+                            return d
+                    at += 2
+                else:
+                    m = model_out[at]
+                    at += 1
+                    if 'err' in m:
+                        return f'step {op}: model={m}'
+                    x, al = dict(exp[pl[1]][pl[2]]), dict(exp[pl[1]]['all'])
+                    xt = sum(x.values())
+                    yt = sum(al.values()) - sum(x.get(k, 0) for k in al)
+                    d = _keyness_cmp(f'step {op}', st['fwd'], m['ok']['keyness'],
+                                     lambda tok: x.get(tok, 0) * yt == (al.get(tok, 0) - x.get(tok, 0)) * xt, score=False)
+                    if d:
+                        return d
+            return None
         if case.kind == 'split':
             ms, mw = model_out[0]['ok'], model_out[1]
             bad_part = any('err' in p for p in ms['parts'])
@@ -793,6 +1096,21 @@ class C20(Check):
                 d = self._cmp_res({'ok': io['add']}, ms['add'])
                 if d:
                     return 'add: ' + d
+            if 'other' not in io:
+                return None
+            # later looks at the same objects, results of the second merge / addition, the analyser fed in parts:
+            # the (pure) model gives the same answers
+            for k, m in (('merge_again', ms['merge']), ('merge_after', ms['merge']), ('add_again', ms.get('add')),
+                         ('add_after', ms.get('add')), ('whole_after', mw), ('fed', mw),
+                         ('other', model_out[2]), ('other_after', model_out[2])):
+                if io.get(k) is not None and m is not None:
+                    d = self._cmp_res({'ok': io[k]}, m)
+                    if d:
+                        return f'{k}: {d}'
+            for ip, mp in zip(io['parts_after'], ms['parts']):
+                d = self._cmp_res({'ok': ip}, mp)
+                if d:
+                    return 'part, later look: ' + d
             return None
         if case.kind == 'keyness':
             if 'err' in impl_out:
@@ -826,7 +1144,11 @@ class C20(Check):
             m = model_out[0]
             if 'err' in impl_out:
                 return f'impl={impl_out} model={m}'
-            return None if impl_out['ok'] == m['ok'] else f'impl={impl_out["ok"]} model={m["ok"]}'
+            io = {k: v for k, v in impl_out['ok'].items() if k != 'hist'}
+            if io != m['ok']:
+                return f'impl={io} model={m["ok"]}'
+            h = impl_out['ok'].get('hist')       # the second call on the same lists: the same model answer
+            return None if (h is None or h['again'] == m['ok']) else f'second call: impl={h["again"]} model={m["ok"]}'
         if case.kind == 'linewidth':
             m = model_out[0]
             if 'err' in impl_out:
@@ -879,37 +1201,84 @@ class C20(Check):
         def wellformed(lines):
             return all(x is None or isinstance(x, str) for x in lines)
 
-        def expected(kind, lines, wbc, ic):
-            """the statement, token by token, for the tokeniser the analyser is built on"""
-            e = {'all': Counter(), 'start': Counter(), 'mid': Counter(), 'end': Counter()}
-            n = 0
-            for t in lines:
-                if t is None or t == '':
-                    continue
-                n += 1
-                toks = _tokens(kind, t.lower() if ic else t, wbc)
-                e['all'].update(toks)
-                if len(toks) >= 1:
-                    e['start'].update([toks[0]])
-                if len(toks) >= 2 or (len(toks) == 1 and kind == 'word'):
-                    e['end'].update([toks[-1]])
-                if len(toks) >= 3:
-                    e['mid'].update(toks[1:-1])
-            return e, n
+        def strip(d):
+            return {k: v for k, v in d.items() if k != 'hist'}
 
-        def judge_counts(o, kind, lines, wbc, ic, where):
-            e, n = expected(kind, lines, wbc, ic)
+        def judge_counts(o, kind, lines, wbc, ic, where, tag=''):
+            """one look at one analyser against ITS OWN corpus (tag: at which point of the history it was looked at)"""
+            e, n = _expected_counts(kind, lines, wbc, ic)
             for k in ('all', 'start', 'mid', 'end'):
                 if o[k] != _counter_pairs(e[k]):
-                    bad(f'count-{k}:{kind}', f'{where}: {k} counter is {o[k]}, the corpus has {_counter_pairs(e[k])}')
+                    bad(f'count-{k}:{kind}{tag}', f'{where}: {k} counter is {o[k]}, the corpus has {_counter_pairs(e[k])}')
                 tot = sum(v for _, v in o[k])
                 if o['stats'][f'total_{k}_tokens'] != tot or o['num_tokens'][k] != tot:
-                    bad(f'stats-total-{k}', f'{where}: total_{k}_tokens {o["stats"][f"total_{k}_tokens"]} / num_tokens '
-                                            f'{o["num_tokens"][k]} but the counter sums to {tot}')
+                    bad(f'stats-total-{k}{tag}', f'{where}: total_{k}_tokens {o["stats"][f"total_{k}_tokens"]} / num_tokens '
+                                                 f'{o["num_tokens"][k]} but the counter sums to {tot}')
             if kind == 'word' and o['num_lines'] != n:
-                bad('num-lines', f'{where}: num_lines is {o["num_lines"]}, the corpus has {n} non-empty lines')
+                bad(f'num-lines{tag}', f'{where}: num_lines is {o["num_lines"]}, the corpus has {n} non-empty lines')
             if o['stats']['total_lines'] != o['num_lines']:
-                bad('stats-total-lines', f'{where}: stats total_lines {o["stats"]["total_lines"]} != num_lines {o["num_lines"]}')
+                bad(f'stats-total-lines{tag}', f'{where}: stats total_lines {o["stats"]["total_lines"]} != num_lines {o["num_lines"]}')
+            # get_stats(): one row per token of the corpus with its four counts
+            want = {t: c for t, c in e['all'].items()}
+            if set(o['rows']) != set(want):
+                bad(f'get-stats-rows{tag}', f'{where}: get_stats() lists {sorted(o["rows"])}, the corpus has {sorted(want)}')
+            else:
+                for t, row in o['rows'].items():
+                    for k in ('all', 'start', 'mid', 'end'):
+                        if row.get(f'{k}_freq') != e[k].get(t, 0):
+                            bad(f'get-stats-freq{tag}', f'{where}: get_stats() {k}_freq of {t!r} is {row.get(f"{k}_freq")}, '
+                                                        f'the corpus has {e[k].get(t, 0)}')
+
+        def unchanged(first, later, key, what):
+            if first is not None and later is not None and strip(first) != strip(later):
+                diff = [k for k in strip(first) if first.get(k) != later.get(k)]
+                bad(key, f'{what}: read again later it differs in {diff}: {({k: first[k] for k in diff})} -> '
+                         f'{({k: later.get(k) for k in diff})}')
+
+        def judge_keyness(k, t, r, vocab):
+            tt, rt = sum(t.values()), sum(r.values())
+            for side, (x, xt, y, yt) in (('fwd', (t, tt, r, rt)), ('swapped', (r, rt, t, tt))):
+                o = k[side]
+                for tok in vocab:
+                    in_more, in_less = tok in o['more'], tok in o['less']
+                    if in_more and in_less:
+                        bad('keyness-both', f'{side}: {tok} is in both more and less')
+                    if not in_more and not in_less:
+                        bad('keyness-missing', f'{side}: vocabulary token {tok} is in neither more nor less')
+                    ft, fr = Fraction(x.get(tok, 0), xt), Fraction(y.get(tok, 0), yt)
+                    if ft > fr and not in_more:
+                        bad('keyness-direction', f'{side}: {tok} has relative frequency {ft} > {fr} but is not in more')
+                    if ft < fr and not in_less:
+                        bad('keyness-direction', f'{side}: {tok} has relative frequency {ft} < {fr} but is not in less')
+                    if in_more and ft < fr:
+                        # (equal relative frequencies: the statement does not say where the token goes — the
+                        #  code's choice, 'less', is proved for the model and tied by the correspondence)
+                        bad('keyness-direction', f'{side}: {tok} is in more but its relative frequency {ft} is lower than {fr}')
+                    for p in ('more', 'less'):
+                        if tok in o[p]:
+                            s = o[p][tok]
+                            if not math.isfinite(s):
+                                bad('keyness-score-finite', f'{side}: score of {tok} is {s}')
+                            elif s < -1e-9:
+                                bad('keyness-score-negative', f'{side}: score of {tok} is {s}')
+            f, s = k['fwd'], k['swapped']
+            for tok in vocab:
+                a = f['more'].get(tok, f['less'].get(tok))
+                b = s['more'].get(tok, s['less'].get(tok))
+                if a is not None and b is not None and math.isfinite(a) and math.isfinite(b) and not _close(a, b):
+                    bad('keyness-swap', f'score of {tok} is {a!r}, with target and reference swapped {b!r}')
+
+        def keyness_same(k1, k2, key, what):
+            """the same question asked again: same tokens on the same sides, same scores (nan == nan)"""
+            for p in ('more', 'less'):
+                if set(k1[p]) != set(k2[p]):
+                    bad(key, f'{what}: {p} holds {sorted(k2[p])}, the first time {sorted(k1[p])}')
+                    return
+                for tok, v in k1[p].items():
+                    w = k2[p][tok]
+                    if not ((math.isnan(v) and math.isnan(w)) or v == w or _close(v, w)):
+                        bad(key, f'{what}: score of {tok} is {w!r}, the first time {v!r}')
+                        return
 
         if case.kind == 'analyse':
             if not wellformed(inp['lines']):
@@ -918,6 +1287,37 @@ class C20(Check):
                 bad(f'raises:{inp["kind"]}', f'analysing a corpus raised {out["err"]}')
                 return fs
             judge_counts(out['ok'], inp['kind'], inp['lines'], inp['wbc'], inp['ic'], 'analyser')
+            h = out['ok'].get('hist')
+            if h:
+                okind = 'char' if inp['kind'] == 'word' else 'word'
+                judge_counts(h['made'], inp['kind'], inp['lines'], inp['wbc'], inp['ic'],
+                             'make_line_analyser + analyse_line_* on the same objects', ':made')
+                judge_counts(h['other'], okind, inp['lines'], inp['wbc'], inp['ic'],
+                             f'{okind} analyser built on the same objects afterwards', ':second-analyser')
+                unchanged(out['ok'], h['again'], 'analyser-changed-by-later-use',
+                          'the analyser after two more analysers were built on the same objects')
+                unchanged(h['made'], h['made_again'], 'analyser-changed-by-later-use', 'the second analyser')
+                if not h['inputs_unchanged']:
+                    bad('corpus-mutated', 'the objects of the corpus were changed by being analysed')
+        elif case.kind == 'session':
+            if 'err' in out:
+                bad('raises:session', f'building / reading several analysers in one process raised {out["err"]}')
+                return fs
+            o = out['ok']
+            for i, a in enumerate(inp['analysers']):
+                judge_counts(o['first'][i], a['kind'], a['lines'], a['wbc'], a['ic'],
+                             f'analyser {i} ({a["kind"]}) right after it was built', ':first-look')
+                judge_counts(o['later'][i], a['kind'], a['lines'], a['wbc'], a['ic'],
+                             f'analyser {i} ({a["kind"]}) after the other analysers were built and used', ':later-look')
+                unchanged(o['first'][i], o['later'][i], 'analyser-changed-by-later-use', f'analyser {i}')
+            exp, plan = _session_plan(inp)
+            for op, pl, st in zip(inp['ops'], plan, o['steps']):
+                if op[0] == 'empty' and st:
+                    judge_counts(st['empty'], op[1], [], '-', False, f'a new {op[1]} analyser that has seen no line', ':unfed')
+                if op[0] == 'keyness' and pl and st:
+                    t, r = dict(pl[1]), dict(pl[2])
+                    judge_keyness(st, t, r, sorted(set(t) | set(r)))
+                    keyness_same(st['fwd'], st['fwd_again'], 'keyness-second-call', 'compute_keyness on the same counters again')
         elif case.kind == 'split':
             if not all(wellformed(p) for p in inp['parts']):
                 return fs
@@ -945,52 +1345,70 @@ class C20(Check):
             for i, (before, after) in enumerate(zip(o['parts'], o.get('parts_after', o['parts']))):
                 if before != after:
                     bad('operand-changed', f'analyser of part {i} changed by adding / merging: {before} -> {after}')
+            # every analyser of the process against its own corpus, at every point it was looked at
+            okind = 'char' if inp['kind'] == 'word' else 'word'
+            for i, p in enumerate(inp['parts']):
+                judge_counts(o['parts'][i], inp['kind'], p, inp['wbc'], inp['ic'],
+                             f'analyser of part {i} (looked at after the other analysers were built)', ':part')
+                if 'parts_after' in o:
+                    judge_counts(o['parts_after'][i], inp['kind'], p, inp['wbc'], inp['ic'],
+                                 f'analyser of part {i} (looked at after merging / adding / feeding)', ':part-later')
+            if 'other' in o:
+                judge_counts(o['other'], okind, inp['parts'][-1], inp['wbc'], inp['ic'],
+                             f'{okind} analyser of the last part, built next to the others', ':second-analyser')
+                unchanged(o['other'], o['other_after'], 'analyser-changed-by-later-use', f'the {okind} analyser')
+                unchanged(o['whole'], o['whole_after'], 'analyser-changed-by-later-use', 'the analyser of the whole corpus')
+                judge_counts(o['whole_after'], inp['kind'], _flat(inp['parts']), inp['wbc'], inp['ic'],
+                             'whole corpus (looked at again at the end)', ':whole-later')
+                unchanged(o['merge'], o['merge_after'], 'result-changed-by-later-use', 'the merged analyser')
+                unchanged(o.get('add'), o.get('add_after'), 'result-changed-by-later-use', 'the sum of two analysers')
+                same(o['fed'], o['whole'], 'fed-in-parts')
+                judge_counts(o['fed'], inp['kind'], _flat(inp['parts']), inp['wbc'], inp['ic'],
+                             'one analyser fed the parts one after the other', ':fed')
+                if o.get('add_self') is not None:
+                    judge_counts(o['add_self'], inp['kind'], inp['parts'][0] * 2, inp['wbc'], inp['ic'],
+                                 'an analyser added to itself', ':add-self')
+                if o.get('add_chain') is not None:
+                    judge_counts(o['add_chain'], inp['kind'], inp['parts'][0] + inp['parts'][1] + inp['parts'][-1],
+                                 inp['wbc'], inp['ic'], 'a sum used as an operand of a second sum', ':add-chain')
+                if not o['inputs_unchanged']:
+                    bad('corpus-mutated', 'the objects of the corpus were changed by being analysed')
         elif case.kind == 'keyness':
             if 'err' in out:
                 bad('keyness-raises', f'compute_keyness raised {out["err"]}')
                 return fs
             t = dict((k, v) for k, v in inp['target'])
             r = dict((k, v) for k, v in inp['ref'])
-            tt, rt = sum(t.values()), sum(r.values())
             vocab = inp.get('vocab') or sorted(set(t) | set(r))
-            for side, (x, xt, y, yt) in (('fwd', (t, tt, r, rt)), ('swapped', (r, rt, t, tt))):
-                o = out['ok'][side]
-                for tok in vocab:
-                    in_more, in_less = tok in o['more'], tok in o['less']
-                    if in_more and in_less:
-                        bad('keyness-both', f'{side}: {tok} is in both more and less')
-                    if not in_more and not in_less:
-                        bad('keyness-missing', f'{side}: vocabulary token {tok} is in neither more nor less')
-                    ft, fr = Fraction(x.get(tok, 0), xt), Fraction(y.get(tok, 0), yt)
-                    if ft > fr and not in_more:
-                        bad('keyness-direction', f'{side}: {tok} has relative frequency {ft} > {fr} but is not in more')
-                    if ft < fr and not in_less:
-                        bad('keyness-direction', f'{side}: {tok} has relative frequency {ft} < {fr} but is not in less')
-                    if in_more and ft < fr:
-                        # (equal relative frequencies: the statement does not say where the token goes — the
-                        #  code's choice, 'less', is proved for the model and tied by the correspondence)
-                        bad('keyness-direction', f'{side}: {tok} is in more but its relative frequency {ft} is lower than {fr}')
-                    for p in ('more', 'less'):
-                        if tok in o[p]:
-                            s = o[p][tok]
-                            if not math.isfinite(s):
-                                bad('keyness-score-finite', f'{side}: score of {tok} is {s}')
-                            elif s < -1e-9:
-                                bad('keyness-score-negative', f'{side}: score of {tok} is {s}')
-            f, s = out['ok']['fwd'], out['ok']['swapped']
-            for tok in vocab:
-                a = f['more'].get(tok, f['less'].get(tok))
-                b = s['more'].get(tok, s['less'].get(tok))
-                if a is not None and b is not None and math.isfinite(a) and math.isfinite(b) and not _close(a, b):
-                    bad('keyness-swap', f'score of {tok} is {a!r}, with target and reference swapped {b!r}')
+            judge_keyness(out['ok'], t, r, vocab)
+            if 'fwd_again' in out['ok']:
+                keyness_same(out['ok']['fwd'], out['ok']['fwd_again'], 'keyness-second-call',
+                             'compute_keyness on the same counters a second time')
+                keyness_same(out['ok']['fwd'], out['ok']['fwd_reread'], 'keyness-answer-changed',
+                             'the first answer read again after two more calls')
+                if not out['ok']['counters_unchanged']:
+                    bad('keyness-counter-mutated', 'compute_keyness changed the counters it was given')
         elif case.kind == 'complement':
             if wellformed(inp['lines']) and 'err' in out:
                 bad('complement-raises', f'compute_complement_keyness raised {out["err"]}')
+            elif wellformed(inp['lines']) and 'fwd_again' in out['ok']:
+                keyness_same(out['ok']['fwd'], out['ok']['fwd_again'], 'complement-second-call',
+                             'compute_complement_keyness on the same analyser again')
+                if not out['ok']['analyser_unchanged']:
+                    bad('complement-analyser-mutated', 'compute_complement_keyness changed the analyser it was given')
         elif case.kind == 'wordcat':
             if 'err' in out:
                 bad('wordcat-raises', f'get_word_cat_stats raised {out["err"]}')
                 return fs
-            o = out['ok']
+            o = strip(out['ok'])
+            h = out['ok'].get('hist')
+            if h:
+                if h['again'] != o:
+                    bad('wordcat-second-call', f'get_word_cat_stats on the same words again: {h["again"]}, the first time {o}')
+                if h['reread'] != o:
+                    bad('wordcat-answer-changed', 'the first answer of get_word_cat_stats changed after later calls')
+                if not h['inputs_unchanged']:
+                    bad('wordcat-input-mutated', 'get_word_cat_stats changed the word / stop-word list it was given')
             n = len(inp['words'])
             if o['num_words'] != n:
                 bad('num-words', f'num_words {o["num_words"]} for {n} words')
@@ -1007,6 +1425,15 @@ class C20(Check):
             tot = sum(v for _, v in out['ok']['stats'])
             if tot != len(inp['widths']):
                 bad('partition-line-width', f'line-width bins sum to {tot} for {len(inp["widths"])} lines')
+            h = out['ok'].get('hist')
+            if h:
+                if sorted(h['again']) != sorted(out['ok']['stats']) or h['ranges_again'] != out['ok']['ranges']:
+                    bad('linewidth-second-call', f'get_line_width_stats on the same lines again: {h["again"]}, '
+                                                 f'the first time {out["ok"]["stats"]}')
+                if sorted(h['reread']) != sorted(out['ok']['stats']):
+                    bad('linewidth-answer-changed', 'the first answer of get_line_width_stats changed after the second call')
+                if not h['inputs_unchanged']:
+                    bad('linewidth-input-mutated', 'the lines / boundary points were changed by the call')
         elif case.kind == 'docstats':
             if not _in_statement(inp):
                 return fs                      # outside the configurations of the statement (see level note)
@@ -1014,39 +1441,53 @@ class C20(Check):
                 bad('doc-raises', f'get_doc_stats raised {out["err"]}')
                 return fs
             o = out['ok']
-            t, n = o['table'], len(inp['docs'])
             re_tag = ':re' if inp.get('re') else ''
-            for k, v in t.items():
-                if len(v) != n:
-                    bad('doc-column-length', f'column {k} has {len(v)} entries for {n} documents')
-            if fs:
-                return fs
-            for k, v in t.items():
-                if k == 'doc_num':
-                    continue
-                cat = [x for s in o['single'] for x in s.get(k, ['<missing column>'])]
-                if cat != v:
-                    bad('doc-concat', f'column {k} is {v}, the documents one at a time give {cat}')
             from pagexml.analysis.stats import DEFAULT_ELEMENTS
-            for i in range(n):
-                for f in DEFAULT_ELEMENTS:
-                    if t[f][i] != o['own_stats'][i].get(f, 0):
-                        bad('doc-elem-counts', f'{f}[{i}] is {t[f][i]}, the document\'s own stats say {o["own_stats"][i].get(f, 0)}')
-                nw = t['num_words'][i]
-                bins = sum(v[i] for k, v in t.items() if k.startswith('num_words_length_'))
-                if bins + t['num_oversized_words'][i] != nw:
-                    bad('partition-word-length' + re_tag, f'doc {i}: length bins {bins} + oversized '
-                                                          f'{t["num_oversized_words"][i]} != num_words {nw}')
-                if t['num_title_words'][i] + t['num_non_title_words'][i] != nw:
-                    bad('partition-title', f'doc {i}: title + non-title != num_words {nw}')
-                nl = o['n_text_lines'][i]
-                for pre, key in (('words_per_line_', 'partition-wpl'), ('alpha_words_per_line_', 'partition-awpl'),
-                                 ('line_width_range_', 'partition-line-width')):
-                    s = sum(v[i] for k, v in t.items() if k.startswith(pre))
-                    if s != nl:
-                        bad(key, f'doc {i}: {pre}* bins sum to {s} for {nl} lines with text')
-            if o['one_arg'] is not None and o['one_arg'] != t:
+
+            def judge_table(t, idx, where, tag=''):
+                """one returned table against the documents docs[i], i in idx, taken one at a time"""
+                n = len(idx)
+                for k, v in t.items():
+                    if len(v) != n:
+                        bad('doc-column-length' + tag, f'{where}: column {k} has {len(v)} entries for {n} documents')
+                        return
+                for k, v in t.items():
+                    if k == 'doc_num':
+                        continue
+                    cat = [x for i in idx for x in o['single'][i].get(k, ['<missing column>'])]
+                    if cat != v:
+                        bad('doc-concat' + tag, f'{where}: column {k} is {v}, the documents one at a time give {cat}')
+                for j, i in enumerate(idx):
+                    for f in DEFAULT_ELEMENTS:
+                        if t[f][j] != o['own_stats'][i].get(f, 0):
+                            bad('doc-elem-counts' + tag, f'{where}: {f}[{j}] is {t[f][j]}, the document\'s own stats say '
+                                                         f'{o["own_stats"][i].get(f, 0)}')
+                    nw = t['num_words'][j]
+                    bins = sum(v[j] for k, v in t.items() if k.startswith('num_words_length_'))
+                    if bins + t['num_oversized_words'][j] != nw:
+                        bad('partition-word-length' + re_tag + tag, f'{where}: doc {j}: length bins {bins} + oversized '
+                                                                    f'{t["num_oversized_words"][j]} != num_words {nw}')
+                    if t['num_title_words'][j] + t['num_non_title_words'][j] != nw:
+                        bad('partition-title' + tag, f'{where}: doc {j}: title + non-title != num_words {nw}')
+                    nl = o['n_text_lines'][i]
+                    for pre, key in (('words_per_line_', 'partition-wpl'), ('alpha_words_per_line_', 'partition-awpl'),
+                                     ('line_width_range_', 'partition-line-width')):
+                        s = sum(v[j] for k, v in t.items() if k.startswith(pre))
+                        if s != nl:
+                            bad(key + tag, f'{where}: doc {j}: {pre}* bins sum to {s} for {nl} lines with text')
+
+            n = len(inp['docs'])
+            judge_table(o['table'], list(range(n)), 'get_doc_stats(docs)')
+            if o['one_arg'] is not None and o['one_arg'] != o['table']:
                 bad('doc-single-arg', 'get_doc_stats(doc) differs from get_doc_stats([doc])')
+            if 'table_again' in o and not fs:
+                judge_table(o['table_again'], list(range(n)), 'get_doc_stats(docs) called a second time', ':second-call')
+                for k, t in enumerate(o['growing']):
+                    judge_table(t, list(range(k + 1)), f'get_doc_stats on the list grown to {k + 1} documents', ':growing-list')
+                if o['table_reread'] != o['table']:
+                    bad('doc-answer-changed', 'the first table changed after later calls of get_doc_stats')
+                if not o['docs_unchanged']:
+                    bad('doc-input-mutated', 'get_doc_stats changed the documents (id, size, lines or stats)')
         return fs
 
     # ---------------------------------------------------------------- bookkeeping
@@ -1056,6 +1497,8 @@ class C20(Check):
             return len([x for x in inp['lines'] if x]) >= 2
         if case.kind == 'split':
             return len([x for x in _flat(inp['parts']) if x]) >= 2
+        if case.kind == 'session':
+            return len([a for a in inp['analysers'] if any(a['lines'])]) >= 2
         if case.kind == 'keyness':
             return len(inp['target']) + len(inp['ref']) >= 3
         if case.kind == 'docstats':
@@ -1096,6 +1539,32 @@ class C20(Check):
                             yield Case('split', dict(inp, parts=ps[:pi] + [q] + ps[pi + 1:]), case.tags)
             if inp.get('form') != 'str':
                 yield Case('split', dict(inp, form='str'), case.tags)
+        elif case.kind == 'session':
+            ans, ops = inp['analysers'], inp['ops']
+            for i in range(len(ops)):
+                yield Case('session', dict(inp, ops=ops[:i] + ops[i + 1:]), case.tags)
+            if len(ans) > 1:
+                for i in range(len(ans)):
+                    # drop analyser i together with the steps that use it; renumber the others
+                    keep, okay = [], True
+                    for op in ops:
+                        idx = {'keyness': [1, 2], 'complement': [1], 'get_stats': [1]}.get(op[0], [])
+                        if any(op[k] == i for k in idx):
+                            continue
+                        op = list(op)
+                        for k in idx:
+                            if op[k] > i:
+                                op[k] -= 1
+                        keep.append(op)
+                    yield Case('session', {'analysers': ans[:i] + ans[i + 1:], 'ops': keep}, case.tags)
+            for i, a in enumerate(ans):
+                ls = a['lines']
+                for j in range(len(ls)):
+                    yield Case('session', dict(inp, analysers=ans[:i] + [dict(a, lines=ls[:j] + ls[j + 1:])] + ans[i + 1:]),
+                               case.tags)
+                if a['form'] != 'str' or a['ic'] or a.get('route') == 'make':
+                    yield Case('session', dict(inp, analysers=ans[:i] + [dict(a, form='str', ic=False, route='ctor')]
+                                               + ans[i + 1:]), case.tags)
         elif case.kind == 'keyness':
             for side in ('target', 'ref'):
                 c = inp[side]
@@ -1166,6 +1635,13 @@ C20.level_note = (
     'categorise_line_width, the get_line_width_stats counter and the line_width_range_* columns; the order of the '
     'counter\'s keys is not compared); corpora with malformed elements and get_doc_stats calls outside the statement\'s '
     'configurations lie outside the quantifier: differences there are only recorded. '
+    'Histories (wave 4; the model is pure, so the same model answer is demanded of every later look): every analyser is read '
+    'again after other analysers (other corpora, the other kind, make_line_analyser + analyse_line_*) were built on the same '
+    'objects, merged, added (also to itself / as operand of a second sum), fed part by part, used for keyness; a `session` '
+    'family keeps 2-4 independent analysers alive and judges each against ITS OWN corpus at the first and the last look; '
+    'compute_keyness / compute_complement_keyness / get_word_cat_stats / get_line_width_stats / get_doc_stats are called a '
+    'second time on the same (and on a growing) argument, earlier answers are re-read, and the arguments are snapshotted '
+    'before and after. '
     'Known finding: use_re_word_boundaries=True still yields empty words for runs of blanks.')
 C20.assumptions = [
     'collections.Counter semantics (update, +=, __add__ keeping positive counts, missing key = 0) mirrored by hand as an '
